@@ -42,6 +42,15 @@ ExprPostfixCases ==
             Case("indexOf", "indexOf:" \o o, f, InDecl(Idx("v", <<Bin(o, a, b)>>))),
             Case("castOf", "castOf:" \o o, f, InDecl(Cast(Ty("float", Lit("32")), Bin(o, a, b)))),
             Case("binOfCast", "binOfCast:" \o o, f, InDecl(Bin(o, Cast(Ty("int", Lit("8")), a), Cast(Ty("bool", None), b)))) } : o \in Ops, f \in BOOLEAN }
+  \cup { Case("postfixChain", "postfixChain:" \o sg, f, InDecl(e)) : f \in BOOLEAN,
+          <<sg, e>> \in { <<"call[i][j]", IdxE(IdxE(Call("f", <<a>>), <<one>>), <<two>>)>>,
+                          <<"cast[r][i]", IdxE(IdxE(Cast(Ty("bit", Lit("8")), a), <<Rng(one, None, two)>>), <<one>>)>>,
+                          <<"cast[i]", IdxE(Cast(Ty("bit", Lit("8")), a), <<one>>)>>,
+                          <<"call[i,j]", IdxE(Call("f", <<a, b>>), <<one, two>>)>>,
+                          <<"name[i][j]", IdxM("v", << <<one>>, <<two>> >>)>>,
+                          <<"name[i][j][k]", IdxM("v", << <<one>>, <<a>>, <<Rng(one, None, two)>> >>)>>,
+                          <<"name[i,j]", Idx("v", <<one, two>>)>>,
+                          <<"bin(call[i][j])", Bin("+", IdxE(IdxE(Call("f", <<a>>), <<one>>), <<two>>), b)>> } }
   \cup UNION { { Case("unOfPostfix", "unOfPostfix:" \o u, f, InDecl(Un(u, Call("f", <<a>>)))),
                  Case("unOfIndex", "unOfIndex:" \o u, f, InDecl(Un(u, Idx("v", <<one>>)))),
                  Case("unOfCast", "unOfCast:" \o u, f, InDecl(Un(u, Cast(IntT, a)))) } : u \in Uns, f \in BOOLEAN }
@@ -88,6 +97,7 @@ AssignStmts ==
   \cup { Assign(Idx("v", <<one>>), a), Assign(Idx("v", <<a, b>>), one), Assign(Id("m"), Meas(q)), Assign(Idx("m", <<Lit("0")>>), Meas(q0)),
          Assign(Id("x"), Idx("v", <<Rng(one, two, Lit("8"))>>)), Assign(Id("x"), Idx("v", <<SetE(<<one, two>>)>>)) }
   \cup { CAssign(Id("x"), o, one) : o \in {"+=", "-=", "*=", "/=", "&=", "|=", "^=", "<<=", ">>=", "%="} }
+QOperands2 == { Idx("q", <<Lit("0"), one>>), IdxM("q", << <<Lit("0")>>, <<one>> >>), Idx("q", <<Rng(Lit("0"), None, one)>>), Idx("q", <<Lit("0"), a>>) }
 GateStmts ==
      { GateCall(m, "h", <<>>, <<q>>) : m \in Mods }
   \cup { GateCall(m, "rx", <<Bin("/", Id("pi"), two)>>, <<q0>>) : m \in Mods }
@@ -96,6 +106,9 @@ GateStmts ==
          GPhase(<<>>, Id("pi")), GPhase(<<Mod("ctrl", None)>>, Bin("/", Id("pi"), two)), GPhase(<<Mod("inv", None)>>, a),
          Reset(q), Reset(q0), Reset(hw), Barrier(<<q>>), Barrier(<<q, r1, hw>>), Barrier(<<>>),
          Delay(TLit("10", "ns"), <<q>>), Delay(TLit("20", "%%00B5;s"), <<q>>), Delay(Id("t"), <<q0, r1>>), Delay(Bin("*", two, Id("t")), <<q>>) }
+  (* operands with several indexes in one operator, and with several index operators *)
+  \cup { GateCall(<<>>, "h", <<>>, <<o>>) : o \in QOperands2 } \cup { Reset(o) : o \in QOperands2 } \cup { Barrier(<<o, q>>) : o \in QOperands2 }
+  \cup { Delay(TLit("10", "ns"), <<o>>) : o \in QOperands2 } \cup { Assign(Id("m"), Meas(o)) : o \in QOperands2 \cup {q0, hw} }
 ControlStmts ==
      { If(cnd, t, e) : cnd \in {a, Bin("==", a, one), Lit("true")}, t \in Bodies, e \in Bodies \cup {None} }
   \cup { While(cnd, bd) : cnd \in {a, Bin("<", a, Lit("10"))}, bd \in Bodies }
